@@ -201,21 +201,70 @@ class Engine:
         r.paths = 1
         self.results.append(r)
 
+    def concretize(self, zm, v, depth=0):
+        """z3 model value of a Val as a plain Python/JSON value."""
+        t = v.t
+        if isinstance(t, TNone):
+            return None
+        if isinstance(t, TObj):
+            return {'__obj__': str(v.py)}
+        ev = lambda e: zm.eval(e, model_completion=True)
+        if isinstance(t, TInt) or isinstance(t, TRef):
+            r = ev(v.e)
+            return r.as_long() if z3.is_int_value(r) else str(r)
+        if isinstance(t, TBool):
+            return z3.is_true(ev(v.e))
+        if isinstance(t, TStr):
+            r = ev(v.e)
+            return r.as_string() if z3.is_string_value(r) else str(r)
+        if depth > 3:
+            return '...'
+        if isinstance(t, TOpt):
+            if z3.is_true(ev(opt_is_none(v))):
+                return None
+            return self.concretize(zm, opt_val(v), depth + 1)
+        if isinstance(t, TTuple):
+            return [self.concretize(zm, tuple_get(v, i), depth + 1) for i in range(len(t.elems))]
+        if isinstance(t, TList):
+            n = ev(list_len(v))
+            n = n.as_long() if z3.is_int_value(n) else 0
+            out = []
+            for i in range(max(0, min(n, 8))):
+                out.append(self.concretize(zm, Val(t.elem, z3.Select(list_arr(v), i)), depth + 1))
+            if n > 8:
+                out.append('... (%d elements)' % n)
+            return out
+        return str(ev(v.e))
+
     def model_to_json(self, zm, st):
         out = {}
         try:
-            for k, v in list(st.env.items()) + [('G:' + k, v) for k, v in st.glob.items()]:
-                if isinstance(v, Val) and v.e is not None:
-                    out[k] = str(zm.eval(v.e, model_completion=True))[:300]
+            for k, v in list(st.env.items()):
+                if isinstance(v, Val):
+                    out[k] = self.concretize(zm, v)
+            for k, v in st.glob.items():
+                out['G:' + k] = self.concretize(zm, v)
             ent = st.ghost.get('__entry__')
             if ent:
+                eh = st.ghost.get('__entry_heap__', {})
                 for k, v in ent.items():
-                    if isinstance(v, Val) and v.e is not None:
-                        out['entry:' + k] = str(zm.eval(v.e, model_completion=True))[:300]
-                for (cls, f), arr in st.ghost.get('__entry_heap__', {}).items():
-                    for k, v in ent.items():
-                        if isinstance(v, Val) and isinstance(v.t, TRef) and self.is_sub(v.t.cls, cls):
-                            out['entry:%s.%s' % (k, f)] = str(zm.eval(z3.Select(arr, v.e), model_completion=True))[:300]
+                    if not isinstance(v, Val):
+                        continue
+                    out['entry:' + k] = self.concretize(zm, v)
+                    refs = []
+                    if isinstance(v.t, TRef):
+                        refs = [('entry:' + k, v)]
+                    seen = 0
+                    while refs and seen < 12:
+                        label, rv = refs.pop(0)
+                        seen += 1
+                        for (cls, f), arr in eh.items():
+                            if self.is_sub(rv.t.cls, cls):
+                                ft = self.m.classes[cls][f]
+                                fv = Val(ft, z3.Select(arr, rv.e))
+                                out['%s.%s' % (label, f)] = self.concretize(zm, fv)
+                                if isinstance(ft, TRef) and label.count('.') < 2:
+                                    refs.append(('%s.%s' % (label, f), fv))
         except Exception as e:  # pragma: no cover
             out['__error__'] = repr(e)
         return out
